@@ -4,6 +4,7 @@ package atomic
 
 import (
 	stdatomic "sync/atomic"
+	"unsafe"
 
 	"verifsim/sim"
 )
@@ -234,4 +235,282 @@ func (x *Uint32) CompareAndSwap(old, new uint32) bool {
 	ok := x.v.CompareAndSwap(old, new)
 	sim.After("atomic.Uint32.CompareAndSwap")
 	return ok
+}
+
+// ---- the rest of sync/atomic (generated; same shape: schedule point, real operation) ----
+
+type Uint64 struct{ v stdatomic.Uint64 }
+type Uintptr struct{ v stdatomic.Uintptr }
+
+func AndInt32(addr *int32, mask int32) int32 {
+	sim.Pre("atomic.AndInt32")
+	v := stdatomic.AndInt32(addr, mask)
+	sim.After("atomic.AndInt32")
+	return v
+}
+func OrInt32(addr *int32, mask int32) int32 {
+	sim.Pre("atomic.OrInt32")
+	v := stdatomic.OrInt32(addr, mask)
+	sim.After("atomic.OrInt32")
+	return v
+}
+func AndInt64(addr *int64, mask int64) int64 {
+	sim.Pre("atomic.AndInt64")
+	v := stdatomic.AndInt64(addr, mask)
+	sim.After("atomic.AndInt64")
+	return v
+}
+func OrInt64(addr *int64, mask int64) int64 {
+	sim.Pre("atomic.OrInt64")
+	v := stdatomic.OrInt64(addr, mask)
+	sim.After("atomic.OrInt64")
+	return v
+}
+func SwapInt64(addr *int64, new int64) int64 {
+	sim.Pre("atomic.SwapInt64")
+	v := stdatomic.SwapInt64(addr, new)
+	sim.After("atomic.SwapInt64")
+	return v
+}
+func AndUint32(addr *uint32, mask uint32) uint32 {
+	sim.Pre("atomic.AndUint32")
+	v := stdatomic.AndUint32(addr, mask)
+	sim.After("atomic.AndUint32")
+	return v
+}
+func OrUint32(addr *uint32, mask uint32) uint32 {
+	sim.Pre("atomic.OrUint32")
+	v := stdatomic.OrUint32(addr, mask)
+	sim.After("atomic.OrUint32")
+	return v
+}
+func AndUint64(addr *uint64, mask uint64) uint64 {
+	sim.Pre("atomic.AndUint64")
+	v := stdatomic.AndUint64(addr, mask)
+	sim.After("atomic.AndUint64")
+	return v
+}
+func OrUint64(addr *uint64, mask uint64) uint64 {
+	sim.Pre("atomic.OrUint64")
+	v := stdatomic.OrUint64(addr, mask)
+	sim.After("atomic.OrUint64")
+	return v
+}
+func SwapUint64(addr *uint64, new uint64) uint64 {
+	sim.Pre("atomic.SwapUint64")
+	v := stdatomic.SwapUint64(addr, new)
+	sim.After("atomic.SwapUint64")
+	return v
+}
+func AddUintptr(addr *uintptr, delta uintptr) uintptr {
+	sim.Pre("atomic.AddUintptr")
+	v := stdatomic.AddUintptr(addr, delta)
+	sim.After("atomic.AddUintptr")
+	return v
+}
+func AndUintptr(addr *uintptr, mask uintptr) uintptr {
+	sim.Pre("atomic.AndUintptr")
+	v := stdatomic.AndUintptr(addr, mask)
+	sim.After("atomic.AndUintptr")
+	return v
+}
+func OrUintptr(addr *uintptr, mask uintptr) uintptr {
+	sim.Pre("atomic.OrUintptr")
+	v := stdatomic.OrUintptr(addr, mask)
+	sim.After("atomic.OrUintptr")
+	return v
+}
+func LoadUintptr(addr *uintptr) uintptr {
+	sim.Pre("atomic.LoadUintptr")
+	v := stdatomic.LoadUintptr(addr)
+	sim.After("atomic.LoadUintptr")
+	return v
+}
+func SwapUintptr(addr *uintptr, new uintptr) uintptr {
+	sim.Pre("atomic.SwapUintptr")
+	v := stdatomic.SwapUintptr(addr, new)
+	sim.After("atomic.SwapUintptr")
+	return v
+}
+func CompareAndSwapUintptr(addr *uintptr, old, new uintptr) bool {
+	sim.Pre("atomic.CompareAndSwapUintptr")
+	v := stdatomic.CompareAndSwapUintptr(addr, old, new)
+	sim.After("atomic.CompareAndSwapUintptr")
+	return v
+}
+func StoreUintptr(addr *uintptr, val uintptr) {
+	sim.Pre("atomic.StoreUintptr")
+	stdatomic.StoreUintptr(addr, val)
+	sim.After("atomic.StoreUintptr")
+}
+func LoadPointer(addr *unsafe.Pointer) unsafe.Pointer {
+	sim.Pre("atomic.LoadPointer")
+	v := stdatomic.LoadPointer(addr)
+	sim.After("atomic.LoadPointer")
+	return v
+}
+func StorePointer(addr *unsafe.Pointer, val unsafe.Pointer) {
+	sim.Pre("atomic.StorePointer")
+	stdatomic.StorePointer(addr, val)
+	sim.After("atomic.StorePointer")
+}
+func SwapPointer(addr *unsafe.Pointer, new unsafe.Pointer) unsafe.Pointer {
+	sim.Pre("atomic.SwapPointer")
+	v := stdatomic.SwapPointer(addr, new)
+	sim.After("atomic.SwapPointer")
+	return v
+}
+func CompareAndSwapPointer(addr *unsafe.Pointer, old, new unsafe.Pointer) bool {
+	sim.Pre("atomic.CompareAndSwapPointer")
+	v := stdatomic.CompareAndSwapPointer(addr, old, new)
+	sim.After("atomic.CompareAndSwapPointer")
+	return v
+}
+func (x *Int32) Swap(new int32) int32 {
+	sim.Pre("atomic.Int32.Swap")
+	v := x.v.Swap(new)
+	sim.After("atomic.Int32.Swap")
+	return v
+}
+func (x *Int32) And(mask int32) int32 {
+	sim.Pre("atomic.Int32.And")
+	v := x.v.And(mask)
+	sim.After("atomic.Int32.And")
+	return v
+}
+func (x *Int32) Or(mask int32) int32 {
+	sim.Pre("atomic.Int32.Or")
+	v := x.v.Or(mask)
+	sim.After("atomic.Int32.Or")
+	return v
+}
+func (x *Int64) Swap(new int64) int64 {
+	sim.Pre("atomic.Int64.Swap")
+	v := x.v.Swap(new)
+	sim.After("atomic.Int64.Swap")
+	return v
+}
+func (x *Int64) And(mask int64) int64 {
+	sim.Pre("atomic.Int64.And")
+	v := x.v.And(mask)
+	sim.After("atomic.Int64.And")
+	return v
+}
+func (x *Int64) Or(mask int64) int64 {
+	sim.Pre("atomic.Int64.Or")
+	v := x.v.Or(mask)
+	sim.After("atomic.Int64.Or")
+	return v
+}
+func (x *Uint32) Swap(new uint32) uint32 {
+	sim.Pre("atomic.Uint32.Swap")
+	v := x.v.Swap(new)
+	sim.After("atomic.Uint32.Swap")
+	return v
+}
+func (x *Uint32) And(mask uint32) uint32 {
+	sim.Pre("atomic.Uint32.And")
+	v := x.v.And(mask)
+	sim.After("atomic.Uint32.And")
+	return v
+}
+func (x *Uint32) Or(mask uint32) uint32 {
+	sim.Pre("atomic.Uint32.Or")
+	v := x.v.Or(mask)
+	sim.After("atomic.Uint32.Or")
+	return v
+}
+func (x *Uint64) Load() uint64 {
+	sim.Pre("atomic.Uint64.Load")
+	v := x.v.Load()
+	sim.After("atomic.Uint64.Load")
+	return v
+}
+func (x *Uint64) Store(val uint64) {
+	sim.Pre("atomic.Uint64.Store")
+	x.v.Store(val)
+	sim.After("atomic.Uint64.Store")
+}
+func (x *Uint64) Add(delta uint64) uint64 {
+	sim.Pre("atomic.Uint64.Add")
+	v := x.v.Add(delta)
+	sim.After("atomic.Uint64.Add")
+	return v
+}
+func (x *Uint64) Swap(new uint64) uint64 {
+	sim.Pre("atomic.Uint64.Swap")
+	v := x.v.Swap(new)
+	sim.After("atomic.Uint64.Swap")
+	return v
+}
+func (x *Uint64) CompareAndSwap(old, new uint64) bool {
+	sim.Pre("atomic.Uint64.CompareAndSwap")
+	v := x.v.CompareAndSwap(old, new)
+	sim.After("atomic.Uint64.CompareAndSwap")
+	return v
+}
+func (x *Uint64) And(mask uint64) uint64 {
+	sim.Pre("atomic.Uint64.And")
+	v := x.v.And(mask)
+	sim.After("atomic.Uint64.And")
+	return v
+}
+func (x *Uint64) Or(mask uint64) uint64 {
+	sim.Pre("atomic.Uint64.Or")
+	v := x.v.Or(mask)
+	sim.After("atomic.Uint64.Or")
+	return v
+}
+func (x *Uintptr) Load() uintptr {
+	sim.Pre("atomic.Uintptr.Load")
+	v := x.v.Load()
+	sim.After("atomic.Uintptr.Load")
+	return v
+}
+func (x *Uintptr) Store(val uintptr) {
+	sim.Pre("atomic.Uintptr.Store")
+	x.v.Store(val)
+	sim.After("atomic.Uintptr.Store")
+}
+func (x *Uintptr) Add(delta uintptr) uintptr {
+	sim.Pre("atomic.Uintptr.Add")
+	v := x.v.Add(delta)
+	sim.After("atomic.Uintptr.Add")
+	return v
+}
+func (x *Uintptr) Swap(new uintptr) uintptr {
+	sim.Pre("atomic.Uintptr.Swap")
+	v := x.v.Swap(new)
+	sim.After("atomic.Uintptr.Swap")
+	return v
+}
+func (x *Uintptr) CompareAndSwap(old, new uintptr) bool {
+	sim.Pre("atomic.Uintptr.CompareAndSwap")
+	v := x.v.CompareAndSwap(old, new)
+	sim.After("atomic.Uintptr.CompareAndSwap")
+	return v
+}
+func (x *Uintptr) And(mask uintptr) uintptr {
+	sim.Pre("atomic.Uintptr.And")
+	v := x.v.And(mask)
+	sim.After("atomic.Uintptr.And")
+	return v
+}
+func (x *Uintptr) Or(mask uintptr) uintptr {
+	sim.Pre("atomic.Uintptr.Or")
+	v := x.v.Or(mask)
+	sim.After("atomic.Uintptr.Or")
+	return v
+}
+func (x *Value) Swap(new any) any {
+	sim.Pre("atomic.Value.Swap")
+	v := x.v.Swap(new)
+	sim.After("atomic.Value.Swap")
+	return v
+}
+func (x *Value) CompareAndSwap(old, new any) bool {
+	sim.Pre("atomic.Value.CompareAndSwap")
+	v := x.v.CompareAndSwap(old, new)
+	sim.After("atomic.Value.CompareAndSwap")
+	return v
 }
